@@ -16,6 +16,7 @@ inductive Err where
   | assertionError | notImplemented | bareException | unicodeError
   | unexpectedDER | malformedPoint | malformedSignature | unknownCurve | badSignature
   | invalidCurve | invalidSharedSecret | noKey | rsZero | badDigest
+  | notModelled   -- not a Python exception: the input leaves the modelled part of the code (explicit curve parameters, EdDSA)
   | outOfFuel     -- not a Python exception: a fuel-bounded model loop ran out of fuel (proved unreachable, C14)
   deriving DecidableEq, Repr, Inhabited
 
@@ -37,6 +38,7 @@ def Err.name : Err → String
   | .badSignature => "BadSignatureError" | .invalidCurve => "InvalidCurveError"
   | .invalidSharedSecret => "InvalidSharedSecretError" | .noKey => "NoKeyError"
   | .rsZero => "RSZeroError" | .badDigest => "BadDigestError"
+  | .notModelled => "NotModelled(model)"
   | .outOfFuel => "OutOfFuel(model)"
 
 /-- big-endian, fixed width (`int.to_bytes(k,"big")` without the overflow check) -/
